@@ -39,6 +39,11 @@ def guard(fn, *args, **kwargs):
         raise Rejected('NotImplementedError: %s' % (str(e)[:200],))
     except (Violation, Inconclusive, Rejected):
         raise
+    except AssertionError as e:
+        # the code's own "sorry, only ... is supported" asserts are declared rejections, like NotImplementedError
+        if 'supported' in str(e):
+            raise Rejected('AssertionError: %s' % (str(e)[:200],))
+        raise Violation('raised AssertionError: %s' % (str(e)[:300],))
     except Exception as e:
         tb = traceback.extract_tb(e.__traceback__)
         where = ''
@@ -48,6 +53,9 @@ def guard(fn, *args, **kwargs):
                 break
         msg = str(e)
         if 'Traceback (most recent call last)' in msg:
+            last = [l for l in msg.strip().splitlines() if l.strip()][-1]
+            if last.startswith('NotImplementedError') or (last.startswith('AssertionError') and 'supported' in last):
+                raise Rejected(last[:200])
             # the tracer wraps the original exception text + traceback into a plain Exception
             lines = [l for l in msg.strip().splitlines() if l.strip()]
             inner = [l for l in lines if l.startswith('  File ') and (os.sep + 'algopy' + os.sep) in l]
